@@ -1,3 +1,4 @@
+share_hooks("AlgoTravFront", "AlgoVolume")      # the constructs of 04_travfront.py (calls of the generated Tree.traverse instantiations, …)
 # C14 (T13 `travfront`, part 2): swcgeom/analysis/volume.py::_get_volume_frustum_cone — the `leave` closure handed to `tree.traverse`, its list of
 # child results, the accuracy gating, the accumulation into the non-local `volume`  ->  Gen/AlgoVolume.lean
 # The primitive volumes are PURE FUNCTION PARAMETERS over the numeric type parameter `K` (what `Gen/VolumeFormulas.lean` computes for them is a
